@@ -768,9 +768,11 @@ extern "C" int pmc_main(int argc, char** argv) {
         return o.status == ST_OK ? 0 : o.status == ST_VIOLATION ? 1 : 2;
     }
 
-    {   double load = 0; long nc = sysconf(_SC_NPROCESSORS_ONLN);
-        if (FILE* lf = fopen("/proc/loadavg", "r")) { if (fscanf(lf, "%lf", &load) != 1) load = 0; fclose(lf); }
-        g_pin = (!getenv("PMC_NOPIN") && load < (nc > 0 ? nc : 1) * 0.5) ? 1 : 0; }
+    {   // instantaneous number of runnable tasks (4th field of /proc/loadavg, "running/total"): the load averages would still remember
+        // the previous check's own workers
+        double l1, l5, l15; int running = 0, total = 0; long nc = sysconf(_SC_NPROCESSORS_ONLN);
+        if (FILE* lf = fopen("/proc/loadavg", "r")) { if (fscanf(lf, "%lf %lf %lf %d/%d", &l1, &l5, &l15, &running, &total) != 5) running = 0; fclose(lf); }
+        g_pin = (!getenv("PMC_NOPIN") && running <= (nc > 0 ? nc : 1) / 4) ? 1 : 0; }
     const char* tier = argval("--tier", "quick");
     int tieridx = !strcmp(tier, "thorough") ? 1 : 0;
     int workers = atoi(argval("--workers", "16"));
